@@ -29,7 +29,7 @@ def meta(tier):
                  'aliases (one variable aliasing another, results of returning-the-argument functions stored back), indices from '
                  '-2..len+2 written as float literals, 8% wrong-typed arguments of every scalar type, missing optional and surplus '
                  'arguments, containers nested into containers (no cycles); after every step the script logs the JSON of the result and '
-                 'of every pool entry, compared with the list/dict/str model; regexEscape against 20 neighbour strings and urlEncode* '
+                 'of every pool entry, compared with the list/dict/str model; arraySort with seven script comparators (fractional results) on fractional operands seen through an alias; regexEscape against 20 neighbour strings and urlEncode* '
                  'against percent-decoding on random strings. Non-trivial: a history with >= 10 successful mutating steps; distinct = '
                  'distinct script text.'),
         'exhaustive': False,
